@@ -154,6 +154,10 @@ func (g *rnsGen) bidCoin() sdk.Coin {
 		return sdk.NewCoin(rnsDenomB, sdk.NewInt(1_000_000_000).MulRaw(1_000_000_000)) // more than the bidder has
 	case 3, 4, 5:
 		return sdk.NewInt64Coin(rnsDenomB, g.rc.Pick(amts))
+	case 6:
+		// a few whole tokens of an 18-decimal asset: more base units than an int64 holds
+		big19, _ := sdk.NewIntFromString("10000000000000000000")
+		return sdk.NewCoin(rnsDenomC, big19.MulRaw(int64(1+g.rc.Intn(9))))
 	}
 	return sdk.NewInt64Coin(rnsDenomA, g.rc.Pick(amts))
 }
